@@ -42,8 +42,22 @@ pub fn install_panic_hook() {
         let default = panic::take_hook();
         panic::set_hook(Box::new(move |info| {
             let in_sut = IN_SUT.with(|f| f.get());
-            if !in_sut {
+            // a panic that cannot unwind (std's unsafe-precondition checks, panic in a destructor
+            // during unwinding, ...) aborts the process right after this hook: leave its message
+            // on stderr, where the orchestrator reads why the worker died
+            let text = if let Some(s) = info.payload().downcast_ref::<&str>() {
+                s.to_string()
+            } else if let Some(s) = info.payload().downcast_ref::<String>() {
+                s.clone()
+            } else {
+                String::new()
+            };
+            let cannot_unwind = text.starts_with("unsafe precondition(s) violated") || text.contains("cannot unwind") || text.contains("panic in a destructor during cleanup");
+            if !in_sut || cannot_unwind {
                 default(info);
+                if in_sut {
+                    eprintln!("lsim: the panic above cannot unwind; the process aborts inside library code");
+                }
                 return;
             }
             let loc = info
